@@ -1769,8 +1769,35 @@ impl PhysicalPlanner {
                         return Ok(Arc::new(exec));
                     }
                 }
-                // Not cached, pass through to input
-                self.create_physical_plan_inner(&node.input)
+                // Not cached: plan the input, then give its columns the
+                // alias's names. Passing the input through unrenamed left a
+                // derived table's columns under their inner names, so with
+                // two derived tables exposing the same column name (`b.id`,
+                // `c.id`) every outer reference fell back to suffix matching
+                // and both resolved to the same column.
+                let input = self.create_physical_plan_inner(&node.input)?;
+                let input_schema = input.schema();
+                let aliased = plan_schema_to_arrow(&node.schema);
+                let same_names = input_schema.fields().len() != aliased.fields().len()
+                    || input_schema
+                        .fields()
+                        .iter()
+                        .zip(aliased.fields())
+                        .all(|(a, b)| a.name() == b.name());
+                if same_names {
+                    return Ok(input);
+                }
+                let exprs: Vec<Expr> = input_schema
+                    .fields()
+                    .iter()
+                    .map(|f| {
+                        Expr::Column(crate::planner::Column {
+                            relation: None,
+                            name: f.name().clone(),
+                        })
+                    })
+                    .collect();
+                Ok(Arc::new(ProjectExec::new(input, exprs, aliased)))
             }
 
             LogicalPlan::EmptyRelation(node) => {
